@@ -259,6 +259,34 @@ def run_learner(case, ctx):
                                                                                    else ""),
                                   "%s(X%s, sample_weight=w) does not train the wrapped %s as a direct fit with the "
                                   "same weights does" % (path, "" if kind == "tr" else ", y", name), cfg=cfg)
+    # wrapped transformers whose output is a scipy sparse matrix: the wrapper returns the matrix, not something
+    # wrapped around it
+    import scipy.sparse
+    from sklearn.preprocessing import OneHotEncoder, MaxAbsScaler
+    from sklearn.feature_extraction.text import TfidfTransformer
+    Xc = rng.randint(0, 4, size=(25, 3))
+    for sname, mk_, Xs in (("OneHotEncoder", lambda: OneHotEncoder(handle_unknown="ignore"), Xc),
+                           ("TfidfTransformer", lambda: TfidfTransformer(), Xc),
+                           ("MaxAbsScaler/sparse-input", lambda: MaxAbsScaler(), scipy.sparse.csr_matrix(Xc * 1.0))):
+        cfg = {"model": sname, "method": "transform", "sub": case["sub"]}
+        for meth_arg in ("transform", "callable"):
+            try:
+                model = mk_()
+                arg = "transform" if meth_arg == "transform" else (lambda Z, m_=model: m_.transform(Z))
+                wr = SkBaseTransformLearner(model, arg).fit(Xs)
+                got = wr.transform(Xs)
+                exp = model.transform(Xs)
+            except Exception as e:
+                ctx.violation("C15/learner/raised/%s/sparse-output" % type(e).__name__, str(e)[:150], cfg=cfg)
+                continue
+            ctx.hit("learner.sparse_output")
+            same = (scipy.sparse.issparse(got) == scipy.sparse.issparse(exp) and getattr(got, "shape", None) == exp.shape
+                    and (got != exp).nnz == 0 if scipy.sparse.issparse(got) and scipy.sparse.issparse(exp) else
+                    (not scipy.sparse.issparse(exp) and numpy.array_equal(numpy.asarray(got), numpy.asarray(exp))))
+            if not same:
+                ctx.violation("C15/learner/transform-differs/sparse-output", "the wrapped %s returns a %s of shape %r, the "
+                              "wrapper a %s of shape %r" % (sname, type(exp).__name__, exp.shape, type(got).__name__,
+                                                            getattr(got, "shape", None)), cfg=cfg)
     ctx.sample({"models": list(M), "sub": case["sub"]})
 
 
